@@ -649,6 +649,50 @@ def one(rec, hub, seed, tier, i):
                     except Exception:
                         pass
                 f0_.values[pos_] = old_
+    # the SAME system object, already checked several times, is re-wired in place (no name changes): a stock or a flow is attached to a
+    # process the system does not have (that check may be refused; it is not judged), repaired, moved to another process of the
+    # system, and moved back - every check concerns the wiring of the moment
+    if i % 2 == 0 and len(mfa.processes) > 1:
+        own = [s_ for s_ in mfa.stocks.values() if s_.process is not None]
+        foreign = fd.Process(name="a process the system does not have", id=len(mfa.processes) + 5)
+        others = list(mfa.processes.values())
+        big = 1e3 * (explicit if explicit is not None else default_tolerance(mfa))
+        for trial in range(2):
+            if own and (not flows or rng.random() < 0.6):
+                obj, attr = own[int(rng.integers(0, len(own)))], "process"
+            elif flows:
+                obj, attr = flows[int(rng.integers(0, len(flows)))], ("from_process", "to_process")[int(rng.integers(0, 2))]
+            else:
+                break
+            home = getattr(obj, attr)
+            try:
+                setattr(obj, attr, foreign)
+                with hub.pause():
+                    try:
+                        mfa.check_mass_balance(raise_error=bool(rng.integers(0, 2)))
+                    except Exception:
+                        pass
+                setattr(obj, attr, home)
+                hub.ctx["perturbation"] = "re-wired:repaired-after-a-refused-check"
+                for raise_error in (True, False):
+                    call_balance(explicit, raise_error)
+                undo = perturb(mfa, rng, big)
+                if undo is not None:
+                    try:
+                        call_balance(explicit, bool(rng.integers(0, 2)))
+                    finally:
+                        undo()
+                elsewhere = [p_ for p_ in others if p_.name != home.name and (attr != "process" or p_.name != "sysenv")]
+                if elsewhere:
+                    setattr(obj, attr, elsewhere[int(rng.integers(0, len(elsewhere)))])
+                    hub.ctx["perturbation"] = "re-wired:moved-to-another-process"
+                    for raise_error in (True, False):
+                        call_balance(explicit, raise_error)
+                    setattr(obj, attr, home)
+                    hub.ctx["perturbation"] = "re-wired:moved-back"
+                    call_balance(explicit, bool(rng.integers(0, 2)))
+            finally:
+                setattr(obj, attr, home)
     # integer-dtype flows
     if flows and i % 4 == 0:
         f = flows[0]
